@@ -116,6 +116,7 @@ class AnnotationDAGBuilder:
         Добавление узла в мэппинг "Имя узла -> Класс/функция узла"
         """
 
+        self._check_base_class(node)
         self._node_map[get_node_id(node)] = node
 
     def _add_node_pair_to_dag(self, source_node_id: NodeId, dest_node_id: NodeId, **edge_data: t.Any) -> None:
@@ -166,6 +167,7 @@ class AnnotationDAGBuilder:
             for idx, (kwarg_name, input_mark) in enumerate(input_marks_map):
 
                 if isinstance(input_mark, RecurrentSubGraphMark):
+                    self._check_base_class(input_mark.start_node)
                     self._add_node_to_map(input_mark.dest_node)
                     self._dag.add_node(
                         get_node_id(input_mark.dest_node),
@@ -193,6 +195,9 @@ class AnnotationDAGBuilder:
                         get_node_id(current_node),
                     )
 
+                    for node in input_mark.nodes:
+                        self._add_node_to_map(node)
+
                     node_id_list = [get_node_id(node) for node in input_mark.nodes]
 
                     self._dag.add_node(
@@ -203,7 +208,6 @@ class AnnotationDAGBuilder:
                     for node_idx, node_id in enumerate(node_id_list):
                         node = input_mark.nodes[node_idx]
 
-                        self._add_node_to_map(node)
                         self._dag.add_node(node_id, **{NodeField.is_oneof_child: True})
                         self._dag.add_edge(node_id, synthetic_node_id)
 
